@@ -517,9 +517,9 @@ Section UnpackD.
     - apply join2_zone; [exact dir_ok | apply clean_nonempty | apply clean_no_dotdot; exact H].
   Qed.
 
-  Lemma unpack_entry_zone fs tg e st' err :
+  Lemma unpack_entry_zone final fs tg e st' err :
     Inv ds fs -> entry_in_D e = true ->
-    unpack_entry cfg req (fs, tg) e = (st', err) -> Inv ds (fst st') /\ Only ds fs (fst st').
+    unpack_entry cfg req final (fs, tg) e = (st', err) -> Inv ds (fst st') /\ Only ds fs (fst st').
   Proof.
     intros HI HD H. pose proof ds_proper' as Hdp.
     assert (Hsame : Inv ds fs /\ Only ds fs fs) by (split; [exact HI|apply Only_refl]).
@@ -548,6 +548,12 @@ Section UnpackD.
       destruct (mkdir_all_dir_zone ds fs cs fs1 ok Hdp HI Hcp Hcn Hm) as [HI1 HO1].
       destruct (negb ok && u_err_return cfg); [injection H as <- _; split; assumption|].
       destruct (target_outside_root (u_marker cfg) (clean (e_name e)) (e_link e)); [injection H as <- _; split; assumption|].
+      destruct (u_ignore cfg).
+      { destruct (kread fs1 (u_cwd cfg) _) as [[cid sz]|]; [|injection H as <- _; split; assumption].
+        match type of H with context [kwrite fs1 ?s ?c ?z] => destruct (kwrite fs1 s c z) as [fs2|] eqn:Hw end;
+          [|injection H as <- _; split; assumption].
+        injection H as <- _. destruct (kwrite_zone ds Hdp _ _ _ _ _ _ HI1 Hsl Hzl Hw) as [HI2 HO2].
+        split; [exact HI2 | eapply Only_trans; eauto]. }
       match type of H with context [ksymlink fs1 ?t ?s] => destruct (ksymlink fs1 t s) as [fs2|] eqn:Hk end.
       + injection H as <- _.
         assert (Hsafe : link_target_safe ds (if is_abs (e_link e) then join2 (u_dir cfg) (e_link e) else e_link e) = true).
@@ -565,6 +571,12 @@ Section UnpackD.
       destruct (mkdir_all_dir_zone ds fs cs fs1 ok Hdp HI Hcp Hcn Hm) as [HI1 HO1].
       destruct (negb ok && u_err_return cfg); [injection H as <- _; split; assumption|].
       destruct (target_outside_root (u_marker cfg) (clean (e_name e)) (e_link e)); [injection H as <- _; split; assumption|].
+      destruct (u_ignore cfg).
+      { destruct (kread fs1 (u_cwd cfg) _) as [[cid sz]|]; [|injection H as <- _; split; assumption].
+        match type of H with context [kwrite fs1 ?s ?c ?z] => destruct (kwrite fs1 s c z) as [fs2|] eqn:Hw end;
+          [|injection H as <- _; split; assumption].
+        injection H as <- _. destruct (kwrite_zone ds Hdp _ _ _ _ _ _ HI1 Hsl Hzl Hw) as [HI2 HO2].
+        split; [exact HI2 | eapply Only_trans; eauto]. }
       match type of H with context [ksymlink fs1 ?t ?s] => destruct (ksymlink fs1 t s) as [fs2|] eqn:Hk end.
       + injection H as <- _.
         assert (Hsafe : link_target_safe ds (if is_abs (e_link e) then join2 (u_dir cfg) (e_link e) else e_link e) = true).
@@ -586,15 +598,15 @@ Section UnpackD2.
   Hypothesis dir_ok : clean_abs (u_dir cfg).
   Let ds := csegs (u_dir cfg).
 
-  Lemma unpack_pass_zone : forall es fs tg st' err,
+  Lemma unpack_pass_zone final : forall es fs tg st' err,
     Inv ds fs -> entries_in_D es = true ->
-    unpack_pass cfg req (fs, tg) es = (st', err) -> Inv ds (fst st') /\ Only ds fs (fst st').
+    unpack_pass cfg req final (fs, tg) es = (st', err) -> Inv ds (fst st') /\ Only ds fs (fst st').
   Proof.
     induction es as [|e es IH]; intros fs tg st' err HI HD H.
     - cbn in H. injection H as <- _. split; [exact HI|apply Only_refl].
     - cbn [unpack_pass] in H. unfold entries_in_D in HD. cbn [forallb] in HD. apply andb_true_iff in HD as [He HD].
-      destruct (unpack_entry cfg req (fs, tg) e) as [[fs1 tg1] err1] eqn:E1.
-      destruct (unpack_entry_zone cfg req dir_ok fs tg e _ _ HI He E1) as [HI1 HO1]. cbn [fst] in *.
+      destruct (unpack_entry cfg req final (fs, tg) e) as [[fs1 tg1] err1] eqn:E1.
+      destruct (unpack_entry_zone cfg req dir_ok final fs tg e _ _ HI He E1) as [HI1 HO1]. cbn [fst] in *.
       destruct err1.
       + injection H as <- _. split; assumption.
       + destruct (IH fs1 tg1 st' err HI1 HD H) as [HI2 HO2].
@@ -608,8 +620,8 @@ Section UnpackD2.
     induction n as [|n IH]; intros es fs tg st' err HI HD H.
     - cbn in H. injection H as <- _. split; [exact HI|apply Only_refl].
     - cbn [unpack_passes] in H.
-      destruct (unpack_pass cfg req (fs, tg) es) as [[fs1 tg1] err1] eqn:E1.
-      destruct (unpack_pass_zone es fs tg _ _ HI HD E1) as [HI1 HO1]. cbn [fst] in *.
+      destruct (unpack_pass cfg req match n with O => true | _ => false end (fs, tg) es) as [[fs1 tg1] err1] eqn:E1.
+      destruct (unpack_pass_zone _ es fs tg _ _ HI HD E1) as [HI1 HO1]. cbn [fst] in *.
       destruct err1.
       + injection H as <- _. split; assumption.
       + destruct (IH es fs1 tg1 st' err HI1 HD H) as [HI2 HO2].
@@ -854,7 +866,7 @@ Section LayerZone.
               | None => match klstat fs (l_dir cfg) with Some _ => Some fs | None => None end
               end) as [fs0|]; [|injection H as <- _; split; [exact HI|apply Only_refl]].
     destruct (H0 fs0 eq_refl) as [HI0 HO0].
-    destruct (layer_entries cfg (fs0, [([], false)]) es) as [[fs1 vt1] err1] eqn:E1.
+    destruct (layer_entries cfg (fs0, [([], (false, true))]) es) as [[fs1 vt1] err1] eqn:E1.
     injection H as <- _.
     destruct (layer_entries_zone cfg es fs0 _ _ _ Hd HI0 E1) as [HI1 HO1]. cbn [fst] in *.
     split; [exact HI1 | eapply Only_trans; eauto].
@@ -1216,7 +1228,7 @@ Module W.
   Definition ds : path := [b_x; b_target].
   Definition fs0 : fsmap := [([b_x], NDir); ([b_x; b_target], NDir)].
   Definition cfg : ucfg :=
-    {| u_dir := dirS; u_max := 1000; u_passes := 3; u_err_return := false; u_marker := marker |}.
+    {| u_dir := dirS; u_max := 1000; u_passes := 3; u_err_return := false; u_ignore := false; u_cwd := []; u_marker := marker |}.
   Definition reg (n : bytes) : entry := {| e_name := n; e_type := TReg; e_link := []; e_size := 1; e_cid := 7 |}.
   Definition sym (n t : bytes) : entry := {| e_name := n; e_type := TSym; e_link := t; e_size := 0; e_cid := 0 |}.
   (* "../target-evil/f" *)
